@@ -12,7 +12,8 @@ THEOREMS = ["Rva.meetOver_sound", "Rva.meet_sound_left", "Rva.meet_sound_right",
             "Rva.call_transfer_sound", "Rva.ecall_transfer_sound", "Rva.ecallKills_known",
             "Rva.ecallKill_covers_rars", "Rva.entry_transfer_sound", "Rva.exec_sound_full",
             "Rva.mem_silent_sound", "Rva.mem_store_sound", "Rva.load_transfer_sound", "Rva.meetOver_memSound",
-            "Rva.exec_sound_mem", "Rva.goodMemFactsB_sound"]
+            "Rva.exec_sound_mem", "Rva.goodMemFactsB_sound",
+            "Rva.exec_sound_all", "Rva.mstep_out_sound", "Rva.entry_memOut_nil"]
 
 
 def oracle(src, blk, rng):
@@ -30,7 +31,7 @@ def oracle(src, blk, rng):
 
 
 def run(res, tier, seed):
-    proof_ok = proof_stage(res, "Rva.Proofs.C01Mem", THEOREMS, extra_modules=["Rva.Proofs.C01Calls", "Rva.Proofs.C01Path", "Rva.Proofs.C01Transfer", "Rva.Proofs.C01", "Rva.Proofs.C08", "Rva.Proofs.Tables"])
+    proof_ok = proof_stage(res, "Rva.Proofs.C01All", THEOREMS, extra_modules=["Rva.Proofs.C01Mem", "Rva.Proofs.C01Calls", "Rva.Proofs.C01Path", "Rva.Proofs.C01Transfer", "Rva.Proofs.C01", "Rva.Proofs.C08", "Rva.Proofs.Tables"])
     res.cov["rule"] = ("generated convention-respecting programs + corpus; 4 concrete RV32IM executions per "
                        "program from random initial states; every constant / address / entry-relative claim the "
                        "real analyzer attached to each reached node (registers and stack slots) is evaluated "
